@@ -215,6 +215,32 @@ class Sim:
                         X['oo'] = X['oo'] + [all_outs(P)[0], S]
                         self.macro_ctx = dict(X=key(X), S=S, psrc=psrc)
                         self.labels.add('order_only_source_and_generated_added')
+        elif k == 'alias_file':
+            # a file (in a real tree usually a directory: `build docs: phony docs/index.html`) carries the name of an alias
+            # that groups a source file, and a command reaches that source only through the alias
+            self.macro_ctx = None
+            phs = [e for e in g['edges'] if e['phony'] and (e['exp'] or e['imp']) and not e.get('vals')]
+            if phs:
+                e = phs[op['a'] % len(phs)]
+                name = e['outs'][0]
+                behind = [i for i in e['exp'] + e['imp'] if i in srcs and i in self.files and not i.startswith('ddsrc')]
+                if not behind:
+                    if 'salias' not in srcs:
+                        srcs.append('salias')
+                    if 'salias' not in e['exp']:
+                        e['exp'] = e['exp'] + ['salias']
+                    self.write('salias', self.new_content('salias', 5))
+                    behind = ['salias']
+                if not any(key(x) == 'oalias' for x in g['edges']):
+                    g['edges'].append(dict(outs=['oalias'], iouts=[], phony=False, exp=[name], imp=[], oo=[], vals=[], restat=False, generator=False,
+                                           deps='', hidden=[], variant='v0', pool='', rsp=None, dd=None, depfile_layout=0))
+                self.write(name, 'a file named like the alias')
+                self.macro_ctx = dict(alias=name, alias_src=behind[0])
+                self.labels.add('file_named_like_an_alias')
+        elif k == 'ctx_edit_alias_src':
+            ctx = getattr(self, 'macro_ctx', None)
+            if ctx and ctx.get('alias_src'):
+                self.write(ctx['alias_src'], self.new_content(ctx['alias_src'], op.get('c', 5)))
         elif k == 'add_ovf':
             srcs_ = [s_ for s_ in srcs if s_ in self.files and not s_.startswith('ddsrc')]
             if srcs_ and not any(key(e) == 'ovf0' for e in g['edges']):
@@ -979,6 +1005,8 @@ class Sim:
                            faults=[(n_ - 1 - i, 1 + i, False) for i in range(kk + 2)])
                 yield b_all
                 continue
+            elif k == 'm_alias_file_then_edit':
+                seq = [dict(op='alias_file', a=op['a']), b_all, dict(op='ctx_edit_alias_src', c=op['c']), b_all]
             elif k == 'm_bloat_then_rebuild':
                 # the log reaches the recompaction threshold, then an ordinary incremental build crosses it
                 seq = [dict(op='bloat_log'), dict(op='edit', a=op['a'], c=5), b_all]
@@ -1084,6 +1112,33 @@ def run_metamorphic(simA, ops, transform=None, prop='C10', what='declared-implic
             simA.last_model_before = simA.model.clone()
             simB.last_model_before = simB.model.clone()
             simA.now = simB.now = max(simA.now, simB.now)
+            mid = None
+            if op.get('mid') and type(simA) is Sim:
+                # a source (often a discovered header) is edited while the build runs, the same edit at the same wait in both
+                # variants; this build is not compared (which command saw which version is a matter of timing), the run
+                # that follows at once is: "changing it re-runs the command" holds for a change made at any moment
+                ph = models.phony_outs(simA.g)
+                exempt = set(r for e in simA.cmd_edges() if models.is_restat(e) or e['generator'] for r in models.true_reads(simA.g, e, ph))
+                cand = [s_ for s_ in simA.g['srcs'] if s_ not in exempt and not s_.startswith('ddsrc') and s_ in simA.files]
+                if cand:
+                    s_ = cand[op['mid'][1] % len(cand)]
+                    mid = [dict(at=op['mid'][0], path=s_, content=simA.new_content(s_, 5))]
+            if mid:
+                rA = simA.invoke(targets, j=op['j'], k=op['k'], sched=op['sched'], mid_edits=mid, oracles=False)
+                rB = simB.invoke(targets, j=op['j'], k=op['k'], sched=op['sched'], mid_edits=mid, oracles=False)
+                if rA is None or rB is None or rA['status'] != 0 or rB['status'] != 0:
+                    return
+                if not (any(ev['ev'] == 'mid_edit' for ev in rA['trace']) and any(ev['ev'] == 'mid_edit' for ev in rB['trace'])):
+                    # the edit did not happen in one of the variants (fewer waits than the chosen index): make it now in both
+                    for sm in (simA, simB):
+                        sm.write(mid[0]['path'], mid[0]['content'])
+                else:
+                    simA.labels.add('metamorphic_mid_build_edit')
+                simA.now = simB.now = max(simA.now, simB.now)
+                simA.last_model_before = simA.model.clone()
+                simB.last_model_before = simB.model.clone()
+                nA = len(simA.findings)
+                nB = len(simB.findings)
             rA = simA.invoke(targets, j=op['j'], k=op['k'], sched=op['sched'])
             rB = simB.invoke(targets, j=op['j'], k=op['k'], sched=op['sched'])
             if rA is None or rB is None:
